@@ -41,7 +41,18 @@ func (x *rollWorld) essence() string {
 	for _, o := range x.Sim.All(nil) {
 		e := kit.M{"kind": o["kind"], "name": kit.Name(o), "ns": kit.NS(o), "labels": kit.Get(o, "metadata", "labels"), "spec": o["spec"]}
 		if o["kind"] == "ControllerRevision" {
-			e["children"] = o["children"]
+			// the names of a claim are a set (only membership and count are ever read): canonical order
+			var claims []string
+			for _, g := range kit.List(o, "children") {
+				var ns []string
+				for _, nm := range kit.List(g, "names") {
+					ns = append(ns, fmt.Sprint(nm))
+				}
+				sort.Strings(ns)
+				claims = append(claims, fmt.Sprintf("%v/%v:%s", kit.Get(g, "apiGroup"), kit.Get(g, "kind"), strings.Join(ns, ",")))
+			}
+			sort.Strings(claims)
+			e["children"] = claims
 			e["patch"] = o["parentPatch"]
 		}
 		if o["kind"] == x.pk.Kind {
